@@ -12,6 +12,7 @@
   Helper lemmas: PosterModel/Lemmas/World.lean, Lemmas/WorldFrame.lean.
 -/
 import PosterModel.Lemmas.World
+import PosterModel.Lemmas.WorldEx
 
 set_option linter.unusedVariables false
 set_option linter.unusedSimpArgs false
@@ -195,6 +196,33 @@ theorem runHandler_c (w : World) (h : Bool → Ctx × List Eff × Flow) :
     (w.runHandler h).1.c = (h (w.canWrite (World.writeNeed (h true).2.1))).1 ∧
     (w.runHandler h).2 = (h (w.canWrite (World.writeNeed (h true).2.1))).2.2 := by
   rw [World.runHandler_eq]; simp
+
+/-! ## Non-vacuity: the hypotheses are satisfiable and the conclusions are not trivial (worlds of Lemmas/WorldEx.lean) -/
+section NonVacuity
+open Ex
+
+/-- dropping the waiting operation 1 of `wRun`: its oneshot is gone, the session, the queue, the task and the
+    other operation are as before, `run()` is not woken -/
+example : (wRun.dropOp 1).slot 2 = none ∧ (wRun.dropOp 1).c = wRun.c ∧ (wRun.dropOp 1).task = .running true ∧
+    (wRun.dropOp 1).opSt 5 = some (.fresh 0 .ping) ∧ (wRun.dropOp 1).woken = [] ∧
+    (wRun.dropOp 1).senders ≠ 0 := by decide
+/-- the late PUBACK: bookkeeping done (`awaiting`, `retx` entry removed, quota 4 → 5) whoever waits … -/
+example : (cFlight.handlePkt (fun _ => true) (.puback { packetId := 1 }) true).1 =
+    { cFlight with awaiting := [], retx := [], quota := 5 } ∧
+    (cFlight.handlePkt (fun _ => true) (.puback { packetId := 1 }) true).2.1 =
+      [.send 2 (.pkt (.puback { packetId := 1 }))] := by decide
+/-- … and completing the oneshot of the dropped operation changes nothing (`late_ack_absorbed` applies) -/
+example : (wRun.dropOp 1).sendSlot 2 (.pkt (.puback { packetId := 1 })) = wRun.dropOp 1 :=
+  (late_ack_absorbed _ 2 _ (by decide)).1
+/-- a PUBLISH (QoS 1, packet 9) for subscription 7 whose stream 3 was dropped: the entry is removed, the sender
+    dropped, the PUBACK still written (`dead_stream_only_unregisters`) -/
+example : (wRun.c.handlePkt (fun _ => false) (.publish { topic := [0x61], qos := 1, packetId := some 9, subIds := [7] })
+    true) = ({ wRun.c with subs := [] }, [.dropChan 3, .write (ackBytes 0x40 9)], .cont) := by decide
+/-- dropping stream 3 of `wRun` removes the stream and its channel and nothing else -/
+example : (wRun.apply (.drop (.st 3))).streams = [] ∧ (wRun.apply (.drop (.st 3))).chan 3 = none ∧
+    (wRun.apply (.drop (.st 3))).c = wRun.c ∧ (wRun.apply (.drop (.st 3))).ops = wRun.ops := by decide
+
+end NonVacuity
 
 #print axioms dropOp_frame
 #print axioms dropOp_silent
